@@ -809,6 +809,7 @@ func runHistCase(c *HistCase, prop string) (*caseOut, error) {
 		out.viol = append(out.viol, v)
 		twinDiverged = true
 	}
+	sealReported := false
 	// C02: crash-point oracle, evaluated before every primitive call of a transaction
 	var originals []string
 	if prop == "C02" || prop == "" {
@@ -911,6 +912,26 @@ func runHistCase(c *HistCase, prop string) (*caseOut, error) {
 				if strings.Join(res, "\x00") != strings.Join(fres, "\x00") {
 					viol("C07", fmt.Sprintf("%v in transaction %d returned %.200q, on a freshly constructed BackupFS over a copy of the same trees %.200q", op, txIndex, res, fres))
 					fresh = nil
+				}
+			}
+			if prop == "C04" && c.Layering == "nested" && originals != nil && len(c.Faults) == 0 && !sealReported {
+				// C04 sealing oracle: whatever an operation through the BackupFS did, the location holds
+				// nothing but copies of originals at their own paths (anything else was created, moved
+				// or planted there through the base side), and a link the operation created does not
+				// lead to the location from where it REALLY sits
+				msg := e.checkBackupOnlyOriginals(originals, false)
+				if msg == "" && op.K == "symlink" && res[0] == "ok" && strings.HasPrefix(op.A[1], "/") {
+					msg = e.linkLeadsIntoLocation(op)
+				}
+				if msg != "" {
+					sealReported = true
+					v := Violation{Property: "C04", What: fmt.Sprintf("after %v: %s", op, msg), Case: c}
+					// every label the case has met so far: what an earlier operation left untracked
+					// (content created through a final symlink, say) is copied by a later one
+					if k := knownClass("C04", out.labels); k != "" {
+						v.Known = k
+					}
+					out.viol = append(out.viol, v)
 				}
 			}
 			if (prop == "C02" || prop == "") && originals != nil && len(c.Faults) == 0 {
@@ -1171,6 +1192,32 @@ func (e *histEnv) checkRecoverable(orig []string) string {
 	return ""
 }
 
+// linkLeadsIntoLocation: the symlink just created by op, judged where it physically sits (its parent
+// directory resolved by the operating system): an absolute target, or a relative one taken from that
+// real directory, that lexically names the backup location or something below it must have been
+// refused — that is exactly the test the sealing HiddenFS applies to the name BackupFS hands it.
+func (e *histEnv) linkLeadsIntoLocation(op Op) string {
+	baseRoot := e.rc.Root + e.baseSub
+	np := path.Clean(op.A[1])
+	realDir, err := filepath.EvalSymlinks(baseRoot + path.Dir(np))
+	if err != nil || !(realDir == baseRoot || strings.HasPrefix(realDir, baseRoot+"/")) {
+		return ""
+	}
+	dir := "/" + strings.TrimPrefix(strings.TrimPrefix(realDir, baseRoot), "/")
+	if fi, err := os.Lstat(realDir + "/" + path.Base(np)); err != nil || fi.Mode()&fs.ModeSymlink == 0 {
+		return ""
+	}
+	t := op.A[0]
+	eff := path.Clean(t)
+	if !strings.HasPrefix(t, "/") {
+		eff = path.Join(dir, t)
+	}
+	if eff == e.loc || strings.HasPrefix(eff, e.loc+"/") {
+		return fmt.Sprintf("the new link really sits in %s and its target %q leads to %s, at or below the backup location %s", dir, t, eff, e.loc)
+	}
+	return ""
+}
+
 // checkBackupOnlyOriginals: "the backup filesystem never holds anything else: only copies of
 // originals and of their parent directories, never content created during the transaction".  Every
 // entry of the backup tree must sit at the path of an original of the same type; with exact=true
@@ -1251,6 +1298,7 @@ type HistGen struct {
 	Ext        bool // C13: external modifications interleaved
 	Swap       bool // a directory with tracked content is replaced by a symlink to another directory and the old paths are used again
 	ReadBack   bool // Create composites that read the content back through the handle (not in fault sweeps: full traces)
+	Seal       bool // C04, nested layering: directory links that lead to ancestors of the backup location or from which a relative target can climb into it, and probe operations through them (every method must be refused on the RESOLVED name)
 	Flat       bool // a FLAT link topology (every link points at a link-free path): names are drawn THROUGH the links; the resolver is exact there (Props.C16.resolve_exact_flat_links_partial), so no label applies and every oracle is on
 }
 
@@ -1265,7 +1313,7 @@ func genHistCase(r *RNG, g HistGen, umask int) *HistCase {
 		c.Mode = "wild"
 	}
 	for tries := 0; ; tries++ {
-		c.Tree = genTree(r, GenOpts{NoLinks: g.Flat})
+		c.Tree = genTree(r, GenOpts{NoLinks: g.Flat || g.Seal})
 		if g.Wild || len(treeLabels(c.Tree)) == 0 || tries > 20 {
 			break
 		}
@@ -1365,6 +1413,50 @@ func genHistCase(r *RNG, g HistGen, umask int) *HistCase {
 		}
 		c.Tree = append(pre, keep...)
 		sort.SliceStable(c.Tree, func(i, j int) bool { return strings.Count(c.Tree[i].Path, "/") < strings.Count(c.Tree[j].Path, "/") })
+		if g.Seal {
+			have := map[string]bool{}
+			var dirs []string
+			for _, e := range c.Tree {
+				have[e.Path] = true
+				if e.Kind == "dir" && e.Path != c.Loc {
+					dirs = append(dirs, e.Path)
+				}
+			}
+			for n := 1 + r.Intn(2); n > 0; n-- {
+				var d string
+				switch r.Intn(3) {
+				case 0:
+					d = "/"
+				case 1:
+					ch := chainOf(c.Loc)
+					d = ch[r.Intn(len(ch)-1)] // a proper ancestor of the location
+				default:
+					if len(dirs) == 0 {
+						d = "/"
+					} else {
+						d = r.Pick(dirs)
+					}
+				}
+				par := "/"
+				if len(dirs) > 0 && r.Chance(1, 2) {
+					par = r.Pick(dirs)
+				}
+				if par == d || strings.HasPrefix(par, d+"/") || d == "/" {
+					par = "/"
+				}
+				l := path.Join(par, r.Pick(namePool)+"k")
+				if have[l] {
+					continue
+				}
+				have[l] = true
+				t := d
+				if r.Chance(1, 2) {
+					t = relPath(par, d)
+				}
+				c.Tree = append(c.Tree, Entry{Path: l, Kind: "link", Mode: 0o777, UID: uids[r.Intn(len(uids))], MTime: oldTime(r), Data: t})
+				aliases = append(aliases, [2]string{l, d})
+			}
+		}
 	}
 	if g.Ext {
 		c.Tree = append(c.Tree, Entry{Path: "/zzkeep", Kind: "file", Mode: 0o644, MTime: oldBase + 77, Data: "keep-0"})
@@ -1529,6 +1621,33 @@ func genHistCase(r *RNG, g HistGen, umask int) *HistCase {
 				c.Steps = append(c.Steps, Step{Do: "ext", Arg: []string{side, where, fmt.Sprintf("ext-%d", r.Intn(1000))}})
 			}
 		}
+		if g.Seal {
+			// probes: through each directory link, names and link targets that END UP at or below the location
+			for _, a := range aliases {
+				l, d := a[0], a[1]
+				var probes []Op
+				probes = append(probes, Op{"symlink", []string{relPath(d, c.Loc+"/"+r.Pick(namePool)), l + "/" + r.Pick(namePool) + "p"}})
+				if d == "/" || strings.HasPrefix(c.Loc, d+"/") {
+					via := l + strings.TrimPrefix(c.Loc, strings.TrimSuffix(d, "/"))
+					probes = append(probes,
+						Op{"symlink", []string{r.Pick(namePool), via + "/planted"}},
+						Op{"creat", []string{via + "/planted2", "probe"}},
+						Op{"mkdir", []string{via + "/pd", "493"}},
+						Op{"mkdirall", []string{via + "/pd/e", "493"}},
+						Op{"rename", []string{via, l + "/moved"}},
+						Op{"rename", []string{pickPath(r, paths), via + "/in"}},
+						Op{"chmod", []string{via, "448"}},
+						Op{"remove", []string{via}},
+						Op{"removeall", []string{via}})
+				}
+				for k := 1 + r.Intn(3); k > 0 && len(probes) > 0; k-- {
+					i := r.Intn(len(probes))
+					op := probes[i]
+					probes = append(probes[:i], probes[i+1:]...)
+					c.Steps = append(c.Steps, Step{Op: &op})
+				}
+			}
+		}
 		if g.NoRollback {
 			continue
 		}
@@ -1552,6 +1671,7 @@ func histGenFor(prop string, r *RNG) HistGen {
 		g.Force = true
 	case "C04":
 		g.Layering = "nested"
+		g.Seal = r.Chance(1, 3)
 	case "C03":
 		g.NoRollback = true
 		g.NSteps = 10
